@@ -34,6 +34,7 @@ type Engine struct {
 	lockMode   bool
 	wsCache    map[*ssa.Function]*writeSet
 	blockCache map[*ssa.Function]blockSet
+	missingContracts []string
 	sharedTypes map[string]bool
 	waitLevels map[string]int
 	smtLines  []string // repo-level spec theory
